@@ -87,3 +87,22 @@ Proof.
   assert (H2 : instance_handle t d2 = Ok h) by congruence.
   destruct (key_eq_of_handle_eq t d1 d2 h Hok Hu K1 K2 H1 H2) as [G|G]; [exact G|contradiction].
 Qed.
+
+(* the same three statements without the (always true) uniqueness hypothesis *)
+Theorem key_eq_of_handle_eq' : forall t d1 d2 h,
+  key_type_ok t = true -> key_ok t d1 = true -> key_ok t d2 = true ->
+  instance_handle t d1 = Ok h -> instance_handle t d2 = Ok h ->
+  key_vals_ty t d1 = key_vals_ty t d2 \/
+  exists b1 b2, key_bytes t d1 = Ok b1 /\ key_bytes t d2 = Ok b2 /\ md5_coincidence b1 b2.
+Proof. intros. eapply key_eq_of_handle_eq; eauto using key_ids_unique_always. Qed.
+
+Theorem handle_total' : forall t d,
+  key_type_ok t = true -> key_ok t d = true ->
+  exists h, instance_handle t d = Ok h /\ length h = 16%nat.
+Proof. intros. apply handle_total; auto using key_ids_unique_always. Qed.
+
+Theorem same_handle_iff_same_key' : forall t d1 d2,
+  key_type_ok t = true -> key_ok t d1 = true -> key_ok t d2 = true ->
+  ~ (exists b1 b2, key_bytes t d1 = Ok b1 /\ key_bytes t d2 = Ok b2 /\ md5_coincidence b1 b2) ->
+  (instance_handle t d1 = instance_handle t d2 <-> key_vals_ty t d1 = key_vals_ty t d2).
+Proof. intros. apply same_handle_iff_same_key; auto using key_ids_unique_always. Qed.
